@@ -33,7 +33,12 @@ RULE = (
     "{helper call on a canary, str()/repr(), any()/all() generator over a canary, comparison, arithmetic, boolean, "
     "field-type constructor, nested refused call} x {positional, second positional, keyword, both} inside contexts that do "
     "not touch the record: must raise AND the canaries log no event of any kind (named method or special method "
-    "__str__/__repr__/__iter__/__len__/__bool__/__eq__../__add__../__contains__/__hash__/__format__), whoever the caller."
+    "__str__/__repr__/__iter__/__len__/__bool__/__eq__../__add__../__contains__/__hash__/__format__), whoever the caller.  "
+    "Family 'helper-arguments': every whitelisted helper, builtin and field-type constructor with a canary (str, int, list, "
+    "object, callable, list display, missing field; each exposes ANY public attribute name as a logged callable) in each "
+    "parameter position: a named method of a value invoked by helper or library code is accepted only for the documented "
+    "pairs lower()->.lower, upper()->.upper (also reached through field_* with nocase) or inside a field-type constructor / "
+    "the regex engine; anything else (gettypename, startswith ...) is a violation whatever the caller (applies to every case)."
 )
 ASSUMPTIONS = [
     "a canary method called from the code of a documented helper function (lower/upper/field_*) or from a whitelisted "
@@ -221,6 +226,27 @@ ARG_POSITIONS = [("positional", "{X}"), ("second-positional", "1, {X}"), ("keywo
 ARG_CONTEXTS = ["{H}", "({H}) == 1", "True and ({H})", "any(({H}) for q in [1, 2])", "str(({H}))", "1 + ({H})"]
 ARG_RECORDS = ("real-canary", "standin")
 
+# ---- every whitelisted helper / builtin / constructor with a canary in each parameter position ------------------
+# No forbidden shape is spelled: the calls are allowed.  What is monitored is what the *callee* does with the value: a
+# named method of a value may be invoked only where the helper documents it (DOCUMENTED_HELPER_METHODS) or inside a
+# field-type constructor / the regex engine; `fields(r.c)` calling r.c.gettypename() is an ordinary method call on a value.
+CANARY_ARGS = ["r.s", "r.n", "r.l", "r.k", "r.o", "r.o.fn", "[r.s, r.t]", "r.missing"]
+HELPER_CALLS = [
+    "lower({C})", "upper({C})", "name({C})", "names({C})", "get_type({C})", "has_field(r, {C})", 'has_field({C}, "s")', "fields({C})",
+    'field_regex(r, {C}, "A")', 'field_regex(r, ["s"], {C})', 'field_regex({C}, ["s"], "A")',
+    'field_equals(r, {C}, ["a"])', 'field_equals(r, ["s"], {C})', "field_equals(r, {C}, {C})", 'field_equals({C}, ["s"], ["a"])',
+    'field_equals(r, ["s"], ["a"], nocase={C})', 'field_contains(r, {C}, ["a"])', 'field_contains(r, ["s"], {C})', "field_contains(r, {C}, {C})",
+    'field_contains({C}, ["s"], ["a"])', 'field_contains(r, ["s"], ["a"], nocase={C})', 'field_contains(r, ["s"], ["a"], word_boundary={C})',
+    'field_contains(r, ["s"], {C}, word_boundary=True)', "str({C})", "repr({C})", "any({C})", "all({C})", "any(x for x in {C})",
+    "all(str(x) for x in {C})", "str({C}) == repr({C})", "lower(upper({C}))", "fields(str({C}))", "fields(lower({C}))",
+    "net.ipaddress({C})", "net.ipnetwork({C})", "net.IPAddress({C})", "net.IPNetwork({C})", "net.ipv4.Address({C})", "net.ipv4.Subnet({C})",
+    "net.tcp.Port({C})", "net.udp.Port({C})", "string({C})", "wstring({C})", "varint({C})", "uri({C})", "bytes({C})", "boolean({C})", "float({C})",
+    "datetime({C})", "digest({C})", "command({C})", "stringlist({C})", "dictlist({C})", "dynamic({C})", "filesize({C})", "uint16({C})", "uint32({C})",
+    "unix_file_mode({C})", "record({C})",
+]
+HELPER_ARG_CONTEXTS = ["{H}", "({H}) == 1", "any(({H}) for q in [1])"]
+DOCUMENTED_HELPER_METHODS = {("lower", "lower"), ("upper", "upper")}
+
 # ---- allowed shapes (negative controls) ---------------------------------------------------------------
 CONTROLS = [
     "lower(r.s)", "upper(r.s)", "str(r.n)", "repr(r.s)", 'net.ipnetwork("10.0.0.0/8")', 'net.ipaddress("10.1.2.3") in net.ipnetwork("10.0.0.0/8")',
@@ -381,6 +407,14 @@ def generate(ctx):
             if ctx.mine(idx):
                 yield {"k": "direct", "expr": a, "rec": rk, "shape": a, "scat": "control-direct", "ctx": "bare#0", "ccat": "bare"}
             idx += 1
+    for h in HELPER_CALLS:
+        for c in CANARY_ARGS:
+            for ci, hc in enumerate(HELPER_ARG_CONTEXTS):
+                for rk in ARG_RECORDS:
+                    if ctx.mine(idx):
+                        yield {"k": "helperarg", "expr": hc.replace("{H}", h.replace("{C}", c)), "rec": rk, "shape": h, "scat": "helper-with-canary-argument",
+                               "ctx": "helperctx#%d" % ci, "ccat": "helper-arguments", "callee": h.split("(")[0], "arg": c}
+                    idx += 1
     for tcat, target in ARG_TARGETS:
         for acat, arg in ARG_SHAPES:
             for pname, pos in ARG_POSITIONS:
@@ -391,7 +425,7 @@ def generate(ctx):
                             yield {"k": "hostile", "expr": c.replace("{H}", call), "ev": True, "rec": rk, "shape": "args:%s:%s" % (acat, pname),
                                    "scat": tcat, "ctx": "argctx#%d" % ci, "ccat": "refused-call-arguments", "strict": True, "acat": acat, "pos": pname}
                         idx += 1
-    ctx.note("enumerated_space", {"arg_targets": len(ARG_TARGETS), "arg_shapes": len(ARG_SHAPES), "arg_positions": len(ARG_POSITIONS),
+    ctx.note("enumerated_space", {"helper_calls": len(HELPER_CALLS), "canary_arguments": len(CANARY_ARGS), "arg_targets": len(ARG_TARGETS), "arg_shapes": len(ARG_SHAPES), "arg_positions": len(ARG_POSITIONS),
                                   "arg_contexts": len(ARG_CONTEXTS), "shapes": len(SHAPES), "contexts": len(CONTEXTS), "controls": len(CONTROLS) + len(DIRECT_CONTROLS),
                                   "records": len(RECORDS)} if ctx.shard == 0 else {})
     ctx.exhaustive = True  # the shapes x contexts x records table is run completely on every tier
@@ -610,6 +644,25 @@ def run_case(ctx, case):
     if bad_calls:
         ctx.violation(key, "the interpreter invoked a method of a value / a callable reached through an attribute (canary log)",
                       detail=dict(detail, canary_log=bad_calls[:6]))
+    # a named method of a value invoked by helper / library code on behalf of the selector: only the documented pairs
+    undocumented = []
+    for e in log:
+        if e[0] != "call" or e[3] == "interpreter" or e[5] is None:
+            continue
+        rcls, rfn, via = e[5]
+        if rcls == "none" or "canary-internal" in via:
+            continue
+        if "fieldtype-constructor" in via or "regex-engine" in via:
+            ctx.event("canary_named_call_inside:" + ("fieldtype-constructor" if "fieldtype-constructor" in via else "regex-engine"))
+            continue
+        if rcls == "helper" and (rfn, e[2]) in DOCUMENTED_HELPER_METHODS and not via:
+            ctx.event("canary_named_call_documented:%s->%s" % (rfn, e[2]))
+            continue
+        undocumented.append({"method": e[2], "of": e[1], "on_behalf_of": "%s %s" % (rcls, rfn), "through": list(via), "caller": e[4]})
+    if undocumented:
+        ctx.violation("helper-invokes-method-of-value",
+                      "helper / library code invoked a method of a value that no documented helper behaviour covers",
+                      detail=dict(detail, calls=undocumented[:6]))
     bad_dunder = [e for e in log if e[0] == "dunder" and e[3] == "interpreter" and e[2] != "__class__" and e[2] in dunders]
     if bad_dunder:
         ctx.violation(None if key != "dunder-name-resolved" else key,
@@ -665,6 +718,10 @@ def run_case(ctx, case):
         else:
             ctx.event("forbidden_in_unevaluated_position")
             ctx.event("unevaluated:" + ("raised" if raised is not None else "returned"))
+    elif case["k"] == "helperarg":
+        ctx.event("helper_argument_cases")
+        ctx.event("helper_argument:" + ("raised" if raised is not None else "returned"))
+        ctx.cell("helper-arg", case["callee"], case["arg"])
     else:
         ctx.event("control_cases")
         demanded = False
@@ -714,6 +771,8 @@ def finish(ctx):
     ctx.require(ev["forbidden_in_evaluated_position"] > 0, "no forbidden shape in evaluated position was run")
     ctx.require(ev["strict_cases"] > 0 and ev["canary:special:interpreter"] > 0,
                 "the refused-call-arguments family did not run, or no special method of a canary was ever observed")
+    ctx.require(ev["helper_argument_cases"] > 0 and ev["canary_named_call_documented:lower->lower"] > 0,
+                "the helper-with-canary-argument family did not run, or the documented lower()->.lower call was never observed")
     ctx.require(ev["control_accepted"] > 0, "no allowed control expression was accepted (everything refused?)")
     ctx.require(ev["canary:call:helper"] > 0, "no canary method was ever called by a helper function: canaries not reached")
     ctx.require(ev["canary:dunder:interpreter:__class__"] > 0, "the interpreter never touched a canary value")
